@@ -72,13 +72,13 @@ Proof. induction a as [|x a IH]; cbn [app tot_credit]; [lia|rewrite IH; lia]. Qe
 Lemma tot_debit_app a b : tot_debit (a ++ b) = tot_debit a + tot_debit b.
 Proof. induction a as [|x a IH]; cbn [app tot_debit]; [lia|rewrite IH; lia]. Qed.
 
-Lemma fresh_ids amt adv scc id es : ids_of (fresh amt adv scc id es) = map e_id es.
+Lemma fresh_ids amt adv scc num id es : ids_of (fresh amt adv scc num id es) = map e_id es.
 Proof. destruct es; [reflexivity|]. unfold fresh, ids_of. cbn [flat_map sb_entries]. apply app_nil_r. Qed.
-Lemma fresh_credit amt adv scc id es : tot_credit (fresh amt adv scc id es) = sum_dir amt TCredit es.
+Lemma fresh_credit amt adv scc num id es : tot_credit (fresh amt adv scc num id es) = sum_dir amt TCredit es.
 Proof. destruct es; [reflexivity|]. unfold fresh. cbn [tot_credit sb_credit]. lia. Qed.
-Lemma fresh_debit amt adv scc id es : tot_debit (fresh amt adv scc id es) = sum_dir amt TDebit es.
+Lemma fresh_debit amt adv scc num id es : tot_debit (fresh amt adv scc num id es) = sum_dir amt TDebit es.
 Proof. destruct es; [reflexivity|]. unfold fresh. cbn [tot_debit sb_debit]. lia. Qed.
-Lemma fresh_In amt adv scc id es x : In x (fresh amt adv scc id es) ->
+Lemma fresh_In amt adv scc num id es x : In x (fresh amt adv scc num id es) ->
   sb_entries x = es /\ sb_ident x = id /\ sb_adv x = adv /\ sb_scc x = scc
   /\ sb_credit x = sum_dir amt TCredit es /\ sb_debit x = sum_dir amt TDebit es /\ es <> [].
 Proof. destruct es; [intros []|]. unfold fresh. intros [<-|[]]. cbn. repeat split; congruence. Qed.
@@ -281,14 +281,14 @@ Section WithTables.
     - apply retrace_all.
   Qed.
 
-  Lemma split_spec seg amt tr adv c d b :
+  Lemma split_spec seg amt tr adv c d nc nd b :
     (forall x, classify seg x = classify amt x) -> tr_ok amt tr ->
     (forall e, In e (sb_entries b) -> classify amt (e_code e) <> TNone) ->
     sb_credit b = sum_dir amt TCredit (sb_entries b) -> sb_debit b = sum_dir amt TDebit (sb_entries b) ->
     sb_adv b = adv ->
     part_spec amt b
-      (fresh amt adv c (sb_ident b) (tr (filter (goes seg TCredit) (sb_entries b))))
-      (fresh amt adv d (sb_ident b) (tr (filter (goes seg TDebit) (sb_entries b)))).
+      (fresh amt adv c nc (sb_ident b) (tr (filter (goes seg TCredit) (sb_entries b))))
+      (fresh amt adv d nd (sb_ident b) (tr (filter (goes seg TDebit) (sb_entries b)))).
   Proof.
     intros Hag (Tid & Tsum & Tall) Hdirs Hc Hd Hadv.
     rewrite !(filter_goes_ext seg amt _ _ Hag).
@@ -339,12 +339,12 @@ Section WithTables.
     intros [Hdirs Hc Hd Hadv Hcls]. unfold part, kind_of in *.
     destruct (sb_adv b) eqn:Eadv.
     - rewrite Hcls. cbn [Z.eqb Pos.eqb]. cbn [amt_of] in *.
-      apply (split_spec (st_seg_adv T) (st_amt_adv T) (fun es => es) true 280 280 b);
+      apply (split_spec (st_seg_adv T) (st_amt_adv T) (fun es => es) true 280 280 (sb_num b) (sb_num b) b);
         [exact (agree KAdv)|apply tr_ok_id|exact Hdirs|exact Hc|exact Hd|exact Eadv].
     - destruct HT_parts as (_ & _ & _ & Hscc & _). destruct (scc_ok_sound _ Hscc) as (L200 & L220 & L225).
       cbn [amt_of] in *. destruct Hcls as [E|[[E Hall]|[E Hall]]]; rewrite E.
       + rewrite L200.
-        apply (split_spec (st_seg_std T) (st_amt_std T) (fun es => es) false 220 225 b);
+        apply (split_spec (st_seg_std T) (st_amt_std T) (fun es => es) false 220 225 (sb_num b) (sb_num b) b);
           [exact (agree KStd)|apply tr_ok_id|exact Hdirs|exact Hc|exact Hd|exact Eadv].
       + rewrite L220. now apply reuse_credit_spec.
       + rewrite L225. now apply reuse_debit_spec.
@@ -356,7 +356,7 @@ Section WithTables.
     destruct HT_parts as (_ & _ & _ & _ & Hscc & _). destruct (scc_ok_sound _ Hscc) as (L200 & L220 & L225).
     destruct Hcls as [E|[[E Hall]|[E Hall]]]; rewrite E.
     - rewrite L200.
-      apply (split_spec (st_seg_iat T) (st_amt_iat T) (retrace 1) false 220 225 b);
+      apply (split_spec (st_seg_iat T) (st_amt_iat T) (retrace 1) false 220 225 1 1 b);
         [exact (agree KIat)|apply tr_ok_retrace|exact Hdirs|exact Hc|exact Hd|exact Hadv].
     - rewrite L220. now apply reuse_credit_spec.
     - rewrite L225. now apply reuse_debit_spec.
